@@ -348,6 +348,10 @@ func (o *Object) NextElementBytes(dst *Iter) (name []byte, t Type, err error) {
 	case TagObjectEnd:
 		return nil, TypeNone, nil
 	case TagNop:
+		if v&JSONVALUEMASK == 0 {
+			// Corrupt tape; a skip count of zero would recurse forever.
+			return nil, TypeNone, errors.New("object: invalid nop skip")
+		}
 		o.off += int(v & JSONVALUEMASK)
 		return o.NextElementBytes(dst)
 	default:
